@@ -433,6 +433,58 @@ def rule_b1(ctx, F):
     ctx.floor("single-bit masks into multi-word bit sets", n, 12)
 
 
+def rule_g3(ctx, F):
+    """G3: the successor comparison sees every shift.  After the first partition, states stay merged only while their
+    shift (and goto) successors lie in the same groups; the per-state shift map that feeds this comparison takes, for
+    every terminal entry, the *last* action of its list if that is a Shift (a Shift is always last, also behind Reduces in
+    a conflict entry).  The closure building it may answer `None` only because the list is empty or its last action is
+    not a Shift — never because of the length of the list."""
+    cands = [f for f in F.fn_list if "merge_compatible_states::{closure" in f.name and calls_named(f, "SymbolKey::new") and calls_named(f, "ActionListPool::get")]
+    if len(cands) != 1:
+        ctx.bad("G3", "merge_compatible_states:shift-map-closure", "expected exactly one closure that turns a terminal entry's action list into a (symbol, shift target) pair, found %d" % len(cands))
+        return
+    fn = cands[0]
+    nones = [pt for pt, e in fn.points() for x in own_walk(e) if x.get("k") == "assign" and show(x["l"]) == "_0" and
+             not (strip(x["r"]).get("k") == "agg" and strip(x["r"]).get("variant") == "Some")]
+    somes = some_ret_points(fn)
+    if not nones or not somes:
+        ctx.bad("G3", "merge_compatible_states:shift-map-closure", "the shift-map closure no longer has both outcomes (Some((symbol, state)) / None)")
+        return
+
+    class Lic(Monitor):
+        # m: 0 = nothing established, 1 = list empty / last action is not a Shift (licence for None), 2 = last action is a Shift
+        def elem(self, m, pt, e, s):
+            if pt in nones and m != 1:
+                return Viol("answers None for an entry without having found its action list empty or its last action to be something other than a Shift", pt)
+            if pt in somes and m != 2:
+                return Viol("answers Some without having found the last action to be a Shift", pt)
+            return m
+
+        def edge(self, m, bid, edge, cond, truth, s):
+            if cond is None or not isinstance(edge.lab, dict):
+                return m
+            txt, _ = cond_text(fn, cond, True, deep=True)
+            name = edge.lab.get("name")
+            if "discriminant(" in txt and "::last(" in txt and "Try>::branch" in txt:
+                return 1 if name == "Break" else m
+            if txt.startswith("discriminant(") and "::last(" in rsrules.deep_text(fn, strip(rsrules.cond_def(fn, cond))["a"][0], user=True):
+                if name == "Shift":
+                    return 2
+                return 1
+            return m
+    sr = Search(fn, Lic(), budget=200000)
+    v = sr.run(0)
+    if v is None:
+        ctx.ok("G3", "merge_compatible_states:shift-map-takes-last-action", "the shift map records the last action of every terminal entry when it is a Shift; None only for an empty list or a non-Shift last action (%d states)" % sr.states,
+               sample={"closure": fn.name, "line": fn.line})
+    else:
+        ctx.bad("G3", "merge_compatible_states:shift-map-takes-last-action", "%s %s: a Shift behind other actions of a conflict entry (`[Reduce, Shift]`) is left out of the successor comparison, so states whose "
+                "successors were split apart stay merged and the merged state keeps one context's shift target" % (fn.name.split("::")[-3] + " closure", v.msg), {"path": sr.render_path(v.path)[-6:]})
+
+
+from rsrules import some_ret_points
+
+
 class FoldAll(Monitor):
     """Every item a particular `for` loop yields is folded into the accumulator before the loop asks for the next one.
     m = (in_iteration, folded); only the loop whose `match next()` switch is `switch_bid` is tracked."""
@@ -539,6 +591,7 @@ def run(ctx):
     rule_b1(ctx, F)
     rule_u1(ctx, F)
     rule_f1(ctx, F)
+    rule_g3(ctx, F)
     return ctx.finish(
         "Determinism scan and merge-licence gates over rustc MIR of tree-sitter-generate: no iteration over RandomState-hashed containers, no clock/thread/pid/env/random source, no pointer→integer casts; "
         "states_conflict vets every entry it consumes, token_conflicts/entries_conflict say `no conflict` only after all their tests, merging only under OptLevel::MergeStates. "
